@@ -23,11 +23,11 @@ LEVEL = "exploration"
 SHARDS = {"quick": 8, "thorough": 16}
 BUDGET = {"quick": 27.0, "thorough": 400.0}
 REQUIRE = {
-    "col.evals": 100000,
-    "col.cl_nonneg_int": 100000,
+    "col.evals": 80000,
+    "col.cl_nonneg_int": 80000,
     "col.cl_own_or_nothing": 50000,
     "col.cl_focus_visible": 50000,
-    "col.cl_no_overflow": 100000,
+    "col.cl_no_overflow": 80000,
     "col.cl_filled_when_weighted": 30000,
     "col.cl_proportional": 5000,
     "col.cl_weighted_ge_minwidth": 30000,
@@ -35,41 +35,42 @@ REQUIRE = {
     "col.canvas_layout_checked": 5000,
     "col.cache_hit_agrees": 5000,
     "col.zero_domain_evals": 200,
-    "pile.evals": 20000,
-    "pile.cl_nonneg_int": 20000,
+    "pile.zero_domain_evals": 200,
+    "pile.evals": 12000,
+    "pile.cl_nonneg_int": 12000,
     "pile.cl_own_size": 20000,
     "pile.cl_weighted_fill_remainder": 10000,
     "pile.cl_proportional": 3000,
     "pile.child_sizes_observed": 2000,
     "pile.canvas_layout_checked": 2000,
-    "pad.evals": 10000,
-    "pad.cl_sum_exact": 10000,
+    "pad.evals": 9000,
+    "pad.cl_sum_exact": 9000,
     "pad.cl_requested_when_fits": 5000,
     "pad.cl_remaining_otherwise": 100,
     "pad.cl_split_by_percentage": 5000,
     "pad.child_sizes_observed": 5000,
-    "fill.evals": 5000,
-    "fill.cl_sum_exact": 5000,
+    "fill.evals": 4500,
+    "fill.cl_sum_exact": 4500,
     "fill.cl_requested_when_fits": 3000,
     "fill.cl_remaining_otherwise": 100,
     "fill.cl_split_by_percentage": 3000,
     "fill.child_sizes_observed": 3000,
-    "ovl.evals": 3000,
-    "ovl.cl_sum_exact": 6000,
-    "ovl.cl_requested_when_fits": 3000,
+    "ovl.evals": 1400,
+    "ovl.cl_sum_exact": 2800,
+    "ovl.cl_requested_when_fits": 1900,
     "ovl.cl_remaining_otherwise": 100,
-    "ovl.cl_split_by_percentage": 3000,
-    "ovl.child_sizes_observed": 3000,
-    "grid.evals": 1000,
-    "grid.cl_every_cell_shown": 1000,
-    "grid.cl_cell_width": 1000,
-    "grid.cl_reading_order": 1000,
+    "ovl.cl_split_by_percentage": 1900,
+    "ovl.child_sizes_observed": 1400,
+    "grid.evals": 500,
+    "grid.cl_every_cell_shown": 500,
+    "grid.cl_cell_width": 500,
+    "grid.cl_reading_order": 500,
     "child.renders_logged": 20000,
     "child.negative_dimension_checks": 20000,
     "skipped_invalid": 1,
 }
 RULE = (
-    "Columns: exhaustive over <=3 columns (quick; 4 sampled 1/12, thorough: 4 within budget) x option in {given 1..6, pack with a "
+    "Columns: exhaustive over <=3 columns, the 4-column space in shuffled order as far as the budget allows (col.exhaustive_4column_configs_done of columns_4column_configs_total) x option in {given 1..6, pack with a "
     "fixed spy of pack width 1..6, weight 1..3} x dividechars 0..2 x min_width 1..3 x every focus x maxcol 1..24 on one live object "
     "per configuration (warm cache), every 9th evaluation also rendered (flow size; box size in the random part) so that spy logs and glyph positions are read; "
     "random beyond (<=7 columns, sizes to 30, float and zero weights, zero given, box_columns flags, flow/fixed/box spy sizings, maxcol "
@@ -1226,52 +1227,77 @@ REL = [1, 33, 50, 67, 99, 100]
 
 def columns_exhaustive(ctx, obs, frac):
     opts = [("given", g, "bl") for g in range(1, 7)] + [("pack", p, "x") for p in range(1, 7)] + [("weight", w, "bl") for w in range(1, 4)]
-    nmax = 4
-    idx = 0
-    tick = 0
-    complete = True
-    for n in range(1, nmax + 1):
+    state = {"tick": 0}
+
+    def configs(n):
+        idx = 0
         for combo in itertools.product(opts, repeat=n):
             has_w = any(k == "weight" for k, _, _ in combo)
             for div in (0, 1, 2):
                 for minw in (1, 2, 3) if has_w else (1,):
                     idx += 1
-                    if not ctx.mine(idx):
-                        continue
-                    if n == 4 and ctx.quick and (idx // ctx.nshards) % 12:
-                        continue
-                    if not ctx.more(frac):
-                        complete = False
-                        break
-                    d = {"k": "columns", "cols": [list(c) for c in combo], "div": div, "minw": minw}
-                    C, spies = build_columns(d)
-                    hist = []
-                    for focus in range(n):
-                        for maxcol in range(1, 25):
-                            tick += 1
-                            mode = "widths"
-                            if tick % 9 == 0:
-                                mode = "flow"
-                            eval_columns(obs, C, spies, d, focus, maxcol, mode, 2, False, "")
-                            if obs.fails:
-                                dd = dict(d, focus=focus, maxcol=maxcol, mode=mode, history=list(hist))
-                                report(ctx, dd, obs.take())
-                            hist.append([focus, maxcol])
-                        ctx.case(hash(("col", combo, div, minw, focus)), n=24)
-                    if idx % 50 == 0:
-                        U().CanvasCache.clear()
-                else:
-                    continue
+                    if ctx.mine(idx + n):
+                        yield combo, div, minw
+
+    def one(combo, div, minw):
+        n = len(combo)
+        d = {"k": "columns", "cols": [list(c) for c in combo], "div": div, "minw": minw}
+        C, spies = build_columns(d)
+        hist = []
+        for focus in range(n):
+            for maxcol in range(1, 25):
+                state["tick"] += 1
+                mode = "flow" if state["tick"] % 9 == 0 else "widths"
+                eval_columns(obs, C, spies, d, focus, maxcol, mode, 2, False, "")
+                if obs.fails:
+                    report(ctx, dict(d, focus=focus, maxcol=maxcol, mode=mode, history=list(hist)), obs.take())
+                hist.append([focus, maxcol])
+            ctx.case(hash(("col", combo, div, minw, focus)), n=24)
+
+    complete = True
+    done4 = 0
+    for n in (1, 2, 3, 4):
+        todo = configs(n)
+        if n >= 3:
+            # the 3- and 4-column spaces are walked in a shuffled order so that a run that does not finish it (quick tier, loaded
+            # machine) still samples it uniformly
+            todo = list(todo)
+            ctx.subrng("col", n).shuffle(todo)
+        for k, (combo, div, minw) in enumerate(todo):
+            if not ctx.more(frac):
+                complete = False
                 break
-            else:
-                continue
+            one(combo, div, minw)
+            done4 += n == 4
+            if k % 50 == 0:
+                U().CanvasCache.clear()
+        if not complete:
             break
-        else:
-            continue
-        break
-    ctx.extra["columns_exhaustive_note"] = "see col.exhaustive_shards_complete (number of shards that finished their slice of the enumeration within the budget)"
     ctx.count("col.exhaustive_shards_complete", int(complete))
+    ctx.count("col.exhaustive_4column_configs_done", done4)
+    ctx.extra["columns_4column_configs_total"] = sum(3 * (3 if any(k == "weight" for k, _, _ in c) else 1) for c in itertools.product(opts, repeat=4))
     ctx.sample({"k": "columns", "cols": [["given", 3, "bl"], ["weight", 2, "bl"], ["pack", 4, "x"]], "div": 1, "minw": 2, "focus": 1, "maxcol": 9, "mode": "flow"})
+
+
+def zero_sweep(ctx, obs):
+    """zero weights / zero given sizes (outside the full statement): no exception but the documented one, no negative size"""
+    copts = [["given", 0, "bl", False], ["given", 2, "bl", False], ["weight", 0, "bl", False], ["weight", 1, "bl", False], ["pack", 1, "blx", False]]
+    popts = [["given", 0, "b"], ["given", 2, "b"], ["weight", 0, "b"], ["weight", 1, "b"], ["pack", 1, "l"]]
+    idx = 0
+    for n in (1, 2, 3):
+        for combo in itertools.product(range(5), repeat=n):
+            if not any(c in (0, 2) for c in combo):
+                continue
+            idx += 1
+            if not ctx.mine(idx):
+                continue
+            for size in range(1, 9):
+                for div in (0, 1):
+                    d = {"k": "columns", "cols": [list(copts[c]) for c in combo], "div": div, "minw": 1 + (idx % 2), "focus": (idx + size) % n,
+                         "maxcol": size, "mode": ("widths", "box", "flow")[(idx + size) % 3], "maxrow": 2}  # fmt: skip
+                    run_desc(ctx, obs, d)
+                d = {"k": "pile", "items": [list(popts[c]) for c in combo], "focus": (idx + size) % n, "maxcol": 2, "maxrow": size, "mode": ("rows", "render")[(idx + size) % 2]}
+                run_desc(ctx, obs, d)
 
 
 def rand_columns(rng):
@@ -1627,20 +1653,21 @@ def run(ctx):
         constants.normalize_align, constants.normalize_width, constants.normalize_valign, constants.normalize_height,
     )  # fmt: skip
     obs = Obs()
-    # budget fractions (cumulative): each part = exhaustive core, then random until its slice ends
-    columns_exhaustive(ctx, obs, 0.42)
-    random_until(ctx, obs, rand_columns, 0.48, "col.random_cases")
+    # budget fractions (cumulative): each part = enumerated core, then random cases until its slice ends
+    columns_exhaustive(ctx, obs, 0.40)
+    zero_sweep(ctx, obs)
+    random_until(ctx, obs, rand_columns, 0.46, "col.random_cases")
     merge_counts(ctx, obs)
-    pile_exhaustive(ctx, obs, 0.56)
-    random_until(ctx, obs, rand_pile, 0.62, "pile.random_cases")
+    pile_exhaustive(ctx, obs, 0.54)
+    random_until(ctx, obs, rand_pile, 0.58, "pile.random_cases")
     merge_counts(ctx, obs)
-    padding_exhaustive(ctx, obs, 0.72)
-    random_until(ctx, obs, rand_padding, 0.76, "pad.random_cases")
-    filler_exhaustive(ctx, obs, 0.82)
-    random_until(ctx, obs, rand_filler, 0.85, "fill.random_cases")
+    padding_exhaustive(ctx, obs, 0.66)
+    random_until(ctx, obs, rand_padding, 0.69, "pad.random_cases")
+    filler_exhaustive(ctx, obs, 0.74)
+    random_until(ctx, obs, rand_filler, 0.77, "fill.random_cases")
     merge_counts(ctx, obs)
-    overlay_exhaustive(ctx, obs, 0.90)
-    random_until(ctx, obs, rand_overlay, 0.93, "ovl.random_cases")
+    overlay_exhaustive(ctx, obs, 0.88)
+    random_until(ctx, obs, rand_overlay, 0.92, "ovl.random_cases")
     gridflow_exhaustive(ctx, obs, 0.97)
     random_until(ctx, obs, rand_gridflow, 1.0, "grid.random_cases")
     merge_counts(ctx, obs)
